@@ -10,6 +10,7 @@ import (
 	"encoding/json"
 	"fmt"
 	"io"
+	"math"
 	"net/http"
 	"net/url"
 	"os"
@@ -841,6 +842,11 @@ func parseConds(vals url.Values) (cloudstorage.Conditions, error) {
 		if i == 0 {
 			// Special case
 			ret.DoesNotExist = val == 0
+		} else if val == 0 {
+			// A condition supplied with the value 0 is a condition all the same (it is not
+			// "not supplied", which is what 0 means inside Conditions): keep it as a value
+			// that no generation or metageneration ever has.
+			*e.ref = math.MinInt64
 		}
 	}
 
